@@ -8,6 +8,15 @@ import (
 // GenSpec draws a cluster with nearly full nodes, running jobs around their gang minimum,
 // starving jobs of mixed priorities, queues around their share, and a random tier layout of
 // the four voting plugins.
+func hasAction(as []int64, a int64) bool {
+	for _, x := range as {
+		if x == a {
+			return true
+		}
+	}
+	return false
+}
+
 func newSpec() Spec {
 	return Spec{PGPhase: map[int64]int64{}, JPrio: map[int64]int64{}, JSys: map[int64]bool{}, TClass: map[int64]int64{}, QRecl: map[int64]int64{},
 		QGuar: map[int64][2]int64{}, QDes: map[int64][2]int64{}}
@@ -189,12 +198,14 @@ func GenSpec(r *vh.Rng) Spec {
 			if wantRun {
 				ts.Status = vh.Pick(r, []int64{sched.SRunning, sched.SRunning, sched.SRunning, sched.SRunning, sched.SBound, sched.SReleasing, sched.SSucceeded})
 				// reclaim must leave Bound pods alone (preempt may take them): offer some on the victim side
-				if staged && j == 1 && spec.Actions[0] == 2 && ts.Status == sched.SRunning && r.Chance(1, 3) {
+				if staged && j == 1 && hasAction(spec.Actions, 2) && ts.Status == sched.SRunning && r.Chance(1, 3) {
 					ts.Status = sched.SBound
 				}
 				// a third of the clusters look like a session in which allocate / backfill ran before
 				if afterAllocate && r.Chance(1, 3) {
-					ts.Status = vh.Pick(r, []int64{sched.SAllocated, sched.SAllocated, sched.SBinding, sched.SBinding, sched.SPipelined})
+					// (no Pipelined pods: a pod pipelined earlier in a real session is in the queue plugins' ledgers, which a
+					// session opened from pods cannot reproduce)
+					ts.Status = vh.Pick(r, []int64{sched.SAllocated, sched.SAllocated, sched.SBinding, sched.SBinding})
 				}
 				nid := int64(r.Range(1, nn))
 				f := room[nid]
